@@ -294,6 +294,23 @@ func (p c08) Exec(c *fw.Ctx, u *fw.Unit) {
 				}
 			}
 		}
+		for _, base := range []string{"A1234B", "C$:/.+-D"} {
+			for _, d := range decorate([]byte(base)) {
+				codabarCheck(c, string(d))
+			}
+		}
+		for _, base := range []string{"1234", "12"} {
+			for _, d := range decorate([]byte(base)) {
+				twoOfFiveCheck(c, string(d), false)
+				twoOfFiveCheck(c, string(d), true)
+				addCheckSumCheck(c, string(d))
+			}
+		}
+		// every ASCII byte in a data position
+		for b := 0; b < 128; b++ {
+			codabarCheck(c, "A"+string(rune(b))+"B")
+			codabarCheck(c, "C12"+string(rune(b))+"3D")
+		}
 		for _, s := range []string{"A", "AB", "AA", "A1", "1A", "A1B2", "A1BA1B", "A1B\n", "\nA1B", "a1b", "E1E", "A*B", "A B", "!", "A!B", "A12B\x00", "xA12B", "A12Bx"} {
 			codabarCheck(c, s)
 		}
